@@ -80,6 +80,43 @@ theorem canReplace_of_with (S : Schema) (tyP : TypeId) (L : List Node) (i j : Na
         simp only [Option.some.injEq] at h
         simp [h, hm]
 
+/-- … and in general `can_replace(i, j, [n])` is then "the parent allows the marks of `n`" -/
+theorem canReplace_of_with' (S : Schema) (tyP : TypeId) (L : List Node) (i j : Nat) (n : Node) (ty : TypeId)
+    (hty : S.tyOf n = ty) (h : S.canReplaceWith tyP L i j ty [] = some true) :
+    S.canReplace tyP L i j [n] 0 1 = some ((S.nodeType tyP).allowsMarks n.marks) := by
+  unfold Schema.canReplaceWith at h
+  simp only [List.isEmpty_nil, Bool.not_true, Bool.false_and, Bool.false_eq_true, if_false] at h
+  unfold Schema.canReplace
+  split at h
+  · simp at h
+  · rename_i q hq
+    simp only []
+    have e : (([n] : List Node).take 1).drop 0 = [n] := rfl
+    rw [e]
+    split at h
+    · simp at h
+    · rename_i q1 hq1
+      have : (S.dfa tyP).run q (S.types [n]) = some q1 := by
+        simp [Schema.types, Dfa.run, hty, hq1]
+      rw [this]
+      simp only []
+      split at h
+      · simp at h
+      · rename_i q2 hq2
+        simp only [Option.some.injEq] at h
+        simp [h]
+
+theorem nodeCanReplace_of_with' (S : Schema) (node : Node) (i : Nat) (n : Node) (ty : TypeId)
+    (hty : S.tyOf n = ty) (h : S.nodeCanReplaceWith node i i ty = some true) :
+    S.nodeCanReplace node i i [n] = some ((S.nodeType (S.tyOf node)).allowsMarks n.marks) := by
+  unfold Schema.nodeCanReplaceWith at h
+  unfold Schema.nodeCanReplace
+  split at h
+  · simp at h
+  · rename_i hlen
+    rw [if_neg hlen]
+    exact canReplace_of_with' S _ _ i i n ty hty h
+
 /-- **a closed fragment put in at a child boundary of a nested node**: if the node's `can_replace(i, i, C)` approves,
     `ReplaceStep(p, p, Slice(C, 0, 0))` applies and the document stays valid -/
 theorem level_insert_applies (S : Schema) (hts : TextStableP S) (ty0 : TypeId) (a0 : Attrs) (m0 : Marks) (K : List Node)
@@ -273,7 +310,7 @@ theorem boundary_resolve (S : Schema) {ty0 : TypeId} {a0 : Attrs} {m0 : Marks} {
     simp only [Option.some.injEq] at hp
     subst hp
     have hl' : Lvl ty0 K (r.start d) d tyP (pre ++ (mid ++ post)) ctx := by simpa using hl
-    obtain ⟨rp, h1, h2, h3, h4, h5⟩ := resolve_at_boundary S ty0 a0 m0 hl' hnL.1.1
+    obtain ⟨rp, h1, h2, h3, h4, h5, _, _⟩ := resolve_at_boundary S ty0 a0 m0 hl' hnL.1.1
     exact ⟨rp, h1, by rw [h3, hty], by rw [h2, hk]; simp, by rw [h4, hi, hpl], h5⟩
   | after =>
     simp only at hside
@@ -281,7 +318,7 @@ theorem boundary_resolve (S : Schema) {ty0 : TypeId} {a0 : Attrs} {m0 : Marks} {
     rw [haft] at hp
     simp only [Option.some.injEq] at hp
     subst hp
-    obtain ⟨rp, h1, h2, h3, h4, h5⟩ := resolve_at_boundary S ty0 a0 m0 (pre := pre ++ mid) (post := post) hl
+    obtain ⟨rp, h1, h2, h3, h4, h5, _, _⟩ := resolve_at_boundary S ty0 a0 m0 (pre := pre ++ mid) (post := post) hl
       (by simp [fnormKids_append, hnL.1.1, hnL.1.2])
     rw [fsize_append] at h1
     exact ⟨rp, h1, by rw [h3, hty], by rw [h2, hk], by rw [h4, hi, hpml], h5⟩
@@ -316,7 +353,8 @@ theorem before_innermost (r : RPos) : r.before (r.depth + 1) = some r.pos := by
 
 theorem dropLoop_spec (S : Schema) (r : RPos) (content : List Node) : ∀ (n p : Nat), n ≤ r.depth + 1 →
     dropLoop S r content false n = some (some p) →
-    ∃ d sd i, d ≤ r.depth ∧ (d < r.depth ∨ p = r.pos) ∧ AtBoundary r d sd i p ∧
+    ∃ d sd i, d ≤ r.depth ∧ (d < r.depth ∨ (d = r.depth ∧ sd = .before ∧ i = r.index r.depth ∧ p = r.pos)) ∧
+      AtBoundary r d sd i p ∧
       S.nodeCanReplace (r.node d) i i content = some true
   | 0, p, _, h => by simp [dropLoop] at h
   | d + 1, p, hd, h => by
@@ -331,7 +369,8 @@ theorem dropLoop_spec (S : Schema) (r : RPos) (content : List Node) : ∀ (n p :
         simp only [if_true, Option.some.injEq] at h
         subst h
         simp only [Int.lt_irrefl, if_false, Nat.add_zero] at hfit
-        exact ⟨d, .before, r.index d, by omega, .inr rfl, ⟨by omega, rfl, by rw [hdd]; exact before_innermost r⟩, hfit⟩
+        exact ⟨d, .before, r.index d, by omega, .inr ⟨hdd, rfl, by rw [hdd], rfl⟩,
+          ⟨by omega, rfl, by rw [hdd]; exact before_innermost r⟩, hfit⟩
       · have hlt : d < r.depth := by omega
         by_cases hbias : 2 * r.pos ≤ r.start (d + 1) + r.end_ (d + 1)
         · have hb : dropBias r d = -1 := by simp [dropBias, hdd, hbias]
@@ -358,5 +397,299 @@ theorem dropLoop_spec (S : Schema) (r : RPos) (content : List Node) : ∀ (n p :
               rw [if_neg (by simp [hdd])]
             exact ⟨d, .after, r.index d + 1, by omega, .inl hlt, ⟨by omega, hia.symm, hp'⟩, hfit⟩
     · exact dropLoop_spec S r content d p (by omega) h
+
+/-! ### a closed fragment put in strictly inside a text child -/
+
+/-- validity only looks at the types and marks of the children: the two halves of a cut text child stand for it -/
+theorem validContent_text_halves (S : Schema) (tyP : TypeId) (pre C post : List Node) (s s1 s2 : List Nat) (m : Marks)
+    (h : S.validContent tyP (pre ++ [.text s m] ++ (C ++ [.text s m]) ++ post) = true) :
+    S.validContent tyP (pre ++ [.text s1 m] ++ C ++ [.text s2 m] ++ post) = true := by
+  simp only [Schema.validContent, Schema.types, List.map_append, List.map_cons, List.map_nil, List.all_append,
+    List.all_cons, List.all_nil, Schema.tyOf, Node.tyOr, Node.marks, List.append_assoc] at h ⊢
+  exact h
+
+/-- **a closed fragment put in between the two halves of a text child**: the replace re-validates the parent with
+    `text C text` in place of the text child; approved by `can_replace(i + 1, i + 1, C ++ [text])` -/
+theorem text_insert_applies (S : Schema) (hts : TextStableP S) (ty0 : TypeId) (a0 : Attrs) (m0 : Marks) (K : List Node)
+    (hv : S.checkNode (.elem ty0 a0 m0 K) = true) (hn : fnorm K = true)
+    {b nd : Nat} {tyP : TypeId} {ctx : List Node → List Node} {pre post : List Node} (s : List Nat) (m : Marks)
+    (k : Nat) (hk0 : 0 < k) (hk : k < s.length) (hsp : splitOk s k = true)
+    (hl : Lvl ty0 K b nd tyP (pre ++ .text s m :: post) ctx) (C : List Node) (hnC : fnorm C = true)
+    (hcr : S.canReplace tyP (pre ++ .text s m :: post) (pre.length + 1) (pre.length + 1) (C ++ [.text s m]) 0
+      (C.length + 1) = some true) :
+    ∃ doc', S.apply (.replace (b + (fsize pre + k)) (b + (fsize pre + k)) ⟨C, 0, 0⟩ false) (.elem ty0 a0 m0 K)
+      = .ok doc' := by
+  have hvK : S.validContent ty0 K = true ∧ S.checkKids K = true := by
+    simp only [checkNode_elem, Bool.and_eq_true] at hv
+    exact ⟨hv.1.1, hv.2⟩
+  obtain ⟨hvL, _, hnL⟩ := hl.valid hvK.1 hvK.2 hn
+  have hd : depthAt (pre ++ .text s m :: post) (fsize pre + k) = 0 := by
+    rw [depthAt_append_pre, depthAt_cons, if_neg (by omega), if_neg (by simp only [Node.size_text]; omega)]
+  have ha : alignedAt (pre ++ .text s m :: post) (fsize pre + k) = true := by
+    rw [alignedAt_append_pre, alignedAt_cons, if_neg (by omega), if_neg (by simp only [Node.size_text]; omega)]
+    exact hsp
+  have hsz : fsize pre + k ≤ fsize (pre ++ .text s m :: post) := by
+    rw [fsize_append, fsize_cons, Node.size_text]; omega
+  have hrep := replaceKids_flat (S := S) hl C (fsize pre + k) (fsize pre + k) (Nat.le_refl _) hsz hd hd
+  obtain ⟨Y, hnY, htY, hY⟩ := atLevel_flat_spec S C hnC tyP (pre ++ .text s m :: post) (fsize pre + k)
+    (fsize pre + k) (Nat.le_refl _) hsz hd hd ha ha hnL
+  -- the new child list, unmerged
+  have hnk := fnormKids_of_fnorm hnL
+  simp only [fnormKids_append, fnormKids_cons, Bool.and_eq_true] at hnk
+  have hnp : fnormKids (pre ++ [.text (s.take k) m] ++ C ++ [.text (s.drop k) m] ++ post) = true := by
+    simp only [fnormKids_append, fnormKids_cons, Node.norm_text, fnormKids, Bool.and_eq_true, Bool.and_true,
+      Bool.not_eq_true', List.isEmpty_eq_false_iff]
+    refine ⟨⟨⟨⟨hnk.1, ?_⟩, fnormKids_of_fnorm hnC⟩, ?_⟩, hnk.2.2⟩
+    · intro h; have := congrArg List.length h; rw [List.length_take, List.length_nil] at this; omega
+    · intro h; have := congrArg List.length h; rw [List.length_drop, List.length_nil] at this; omega
+  have hYe : Y = fromArray (pre ++ [.text (s.take k) m] ++ C ++ [.text (s.drop k) m] ++ post) := by
+    apply ftoks_inj _ _ hnY (fromArray_norm _ hnp)
+    rw [htY, fromArray_toks]
+    have hlen : (ftoks pre).length = fsize pre := ftoks_length pre
+    have hk' : k ≤ (s.map (Tok.unit · m)).length := by simp; omega
+    have e0 : ftoks (pre ++ .text s m :: post) = ftoks pre ++ (s.map (Tok.unit · m) ++ ftoks post) := by
+      simp [ftoks_append, ftoks, Node.toks]
+    have e1 : (ftoks (pre ++ .text s m :: post)).take (fsize pre + k) = ftoks pre ++ (s.take k).map (Tok.unit · m) := by
+      rw [e0, ← hlen, List.take_length_add_append, List.take_append_of_le_length hk', List.map_take]
+    have e2 : (ftoks (pre ++ .text s m :: post)).drop (fsize pre + k) = (s.drop k).map (Tok.unit · m) ++ ftoks post := by
+      rw [e0, ← hlen, List.drop_length_add_append, List.drop_append_of_le_length hk', List.map_drop]
+    rw [e1, e2]
+    simp [ftoks_append, ftoks, Node.toks]
+  have hval : S.validContent tyP Y = true := by
+    rw [hYe]
+    apply validContent_fromArray hts
+    apply validContent_text_halves S tyP pre C post s
+    have hL : pre ++ Node.text s m :: post = (pre ++ [.text s m]) ++ post := by simp
+    rw [hL] at hvL hcr
+    have := canReplace_insert_valid S tyP (pre ++ [.text s m]) post (C ++ [.text s m]) hvL
+      (by simpa using hcr)
+    exact this
+  refine ⟨.elem ty0 a0 m0 (ctx Y), ?_⟩
+  simp only [Schema.apply, Bool.false_eq_true, if_false, Schema.fromReplace, Schema.replace, hrep, hY, hval, if_true,
+    Except.map]
+
+theorem list_split_at {α} (l : List α) (i : Nat) (c : α) (h : l[i]? = some c) :
+    l = l.take i ++ c :: l.drop (i + 1) ∧ i < l.length := by
+  obtain ⟨hi, rfl⟩ := List.getElem?_eq_some_iff.mp h
+  have := List.take_append_drop i l
+  rw [List.drop_eq_getElem_cons hi] at this
+  exact ⟨this.symm, hi⟩
+
+/-- **a closed fragment put in at a position strictly inside a text child** (where `insert_point` / `drop_point` answer
+    the position itself): approved by the parent's `can_replace(index + 1, index + 1, C ++ [that child])` -/
+theorem inside_insert_applies (S : Schema) (hts : TextStableP S) (ty0 : TypeId) (a0 : Attrs) (m0 : Marks)
+    (K : List Node) (pos : Nat) (r : RPos) (hf : (Node.elem ty0 a0 m0 K).resolve pos = some r)
+    (hv : S.checkNode (.elem ty0 a0 m0 K) = true) (hn : fnorm K = true)
+    (ho : r.textOffset ≠ 0) (hp : r.pairOk = true) (C : List Node) (hnC : fnorm C = true) (c : Node)
+    (hc : r.parent.kids[r.index r.depth]? = some c)
+    (hg : S.nodeCanReplace r.parent (r.index r.depth + 1) (r.index r.depth + 1) (C ++ [c]) = some true) :
+    ∃ doc', S.apply (.replace pos pos ⟨C, 0, 0⟩ false) (.elem ty0 a0 m0 K) = .ok doc' := by
+  have R := resolve_resolved hf
+  obtain ⟨s, m, hs, hlt⟩ := R.in_text ho
+  rw [hs] at hc
+  simp only [Option.some.injEq] at hc
+  subst hc
+  obtain ⟨tyP, aP, mP, ctx, eP, hl⟩ := Resolved.lvl hf hn r.depth (Nat.le_refl _)
+  obtain ⟨hsplit, hidx⟩ := list_split_at _ _ _ hs
+  have E := R.entry r.depth (Nat.le_refl _)
+  have hpe : (r.entry r.depth).pos = r.start r.depth + fsize (r.parent.kids.take (r.index r.depth)) := E.pos_eq
+  have hple := E.pos_le
+  have hto : r.textOffset = pos - (r.entry r.depth).pos := by unfold RPos.textOffset; rw [R.pos_eq]
+  have hsp : splitOk s r.textOffset = true := by
+    simp only [RPos.pairOk, hs, Bool.or_eq_true, decide_eq_true_eq] at hp
+    exact hp.resolve_left ho
+  have hty : S.tyOf r.parent = tyP := by
+    show S.tyOf (r.node r.depth) = tyP
+    rw [eP]; rfl
+  have hplen : (r.parent.kids.take (r.index r.depth)).length = r.index r.depth := by
+    rw [List.length_take]; omega
+  have hl' : Lvl ty0 K (r.start r.depth) r.depth tyP
+      (r.parent.kids.take (r.index r.depth) ++ .text s m :: r.parent.kids.drop (r.index r.depth + 1)) ctx := by
+    rw [← hsplit]; exact hl
+  unfold Schema.nodeCanReplace at hg
+  split at hg
+  · simp at hg
+  · rw [hty] at hg
+    have hg' : S.canReplace tyP
+        (r.parent.kids.take (r.index r.depth) ++ .text s m :: r.parent.kids.drop (r.index r.depth + 1))
+        ((r.parent.kids.take (r.index r.depth)).length + 1) ((r.parent.kids.take (r.index r.depth)).length + 1)
+        (C ++ [.text s m]) 0 (C.length + 1) = some true := by
+      rw [← hsplit, hplen]
+      simpa using hg
+    obtain ⟨doc', hap⟩ := text_insert_applies S hts ty0 a0 m0 K hv hn s m r.textOffset (by omega) hlt hsp hl' C hnC hg'
+    have hpos : r.start r.depth + (fsize (r.parent.kids.take (r.index r.depth)) + r.textOffset) = pos := by omega
+    rw [hpos] at hap
+    exact ⟨doc', hap⟩
+
+/-- **the helpers' answer "the position itself"**: the parent approved `C` at `index`; with `insideTextGuardR` the
+    request fits trivially and the step applies, whether or not `pos` is a child boundary -/
+theorem innermost_insert_applies (S : Schema) (hts : TextStableP S) (ty0 : TypeId) (a0 : Attrs) (m0 : Marks)
+    (K : List Node) (pos : Nat) (r : RPos) (hf : (Node.elem ty0 a0 m0 K).resolve pos = some r)
+    (hv : S.checkNode (.elem ty0 a0 m0 K) = true) (hn : fnorm K = true) (C : List Node) (hnC : fnorm C = true)
+    (hg : insideTextGuardR S r C = true)
+    (hcr : S.nodeCanReplace r.parent (r.index r.depth) (r.index r.depth) C = some true) :
+    fitsTriviallyO S (.elem ty0 a0 m0 K) pos pos ⟨C, 0, 0⟩ = some true ∧
+    ∃ doc', S.apply (.replace pos pos ⟨C, 0, 0⟩ false) (.elem ty0 a0 m0 K) = .ok doc' := by
+  have R := resolve_resolved hf
+  refine ⟨by simp only [fitsTriviallyO, hf, fitsTriviallyR, beq_self_eq_true, Bool.and_self, if_true]; exact hcr, ?_⟩
+  by_cases ho : r.textOffset = 0
+  · exact boundary_insert_applies S hts ty0 a0 m0 K pos r hf hv hn r.depth .before (r.index r.depth) pos (.inr ho)
+      ⟨Nat.le_refl _, rfl, by rw [← R.pos_eq]; exact before_innermost r⟩ C hnC hcr
+  · simp only [insideTextGuardR, Bool.or_eq_true, beq_iff_eq] at hg
+    have hg' := hg.resolve_left ho
+    split at hg'
+    · rename_i s m hs
+      simp only [Bool.and_eq_true, beq_iff_eq] at hg'
+      have hp : r.pairOk = true := by simp [RPos.pairOk, hs, hg'.1]
+      exact inside_insert_applies S hts ty0 a0 m0 K pos r hf hv hn ho hp C hnC _ hs hg'.2
+    · simp at hg'
+
+/-! ### the second pass of `drop_point` -/
+
+/-- a pass of `drop_point` that ran out refused at every depth -/
+theorem dropLoop_miss (S : Schema) (r : RPos) (content : List Node) (pass2 : Bool) : ∀ (n : Nat),
+    dropLoop S r content pass2 n = some none → ∀ d, d < n → dropFits S r content pass2 d = some false
+  | 0, _, d, hd => by omega
+  | n + 1, h, d, hd => by
+    simp only [dropLoop] at h
+    split at h
+    · simp at h
+    · split at h
+      · simp at h
+      · split at h <;> simp at h
+    · rename_i hf
+      rcases Nat.lt_or_ge d n with hlt | hge
+      · exact dropLoop_miss S r content pass2 n h d hlt
+      · have : d = n := by omega
+        subst this; exact hf
+
+/-- where a pass of `drop_point` answers -/
+theorem dropLoop_hit (S : Schema) (r : RPos) (content : List Node) (pass2 : Bool) : ∀ (n p : Nat), n ≤ r.depth + 1 →
+    dropLoop S r content pass2 n = some (some p) →
+    ∃ d, d ≤ r.depth ∧ dropFits S r content pass2 d = some true ∧
+      ((d = r.depth ∧ p = r.pos) ∨
+       (d < r.depth ∧ AtBoundary r d (if dropBias r d > 0 then .after else .before)
+          (r.index d + (if dropBias r d > 0 then 1 else 0)) p))
+  | 0, p, _, h => by simp [dropLoop] at h
+  | d + 1, p, hd, h => by
+    simp only [dropLoop] at h
+    split at h
+    · simp at h
+    · rename_i hfit
+      by_cases hdd : d = r.depth
+      · have hb : dropBias r d = 0 := by simp [dropBias, hdd]
+        rw [hb] at h
+        simp only [if_true, Option.some.injEq] at h
+        exact ⟨d, by omega, hfit, .inl ⟨hdd, h.symm⟩⟩
+      · have hlt : d < r.depth := by omega
+        refine ⟨d, by omega, hfit, .inr ⟨hlt, by omega, ?_⟩⟩
+        by_cases hbias : 2 * r.pos ≤ r.start (d + 1) + r.end_ (d + 1)
+        · have hb : dropBias r d = -1 := by simp [dropBias, hdd, hbias]
+          rw [hb] at h ⊢
+          simp only [show ¬ ((-1 : Int) = 0) by decide, if_false, show ((-1 : Int) < 0) by decide, if_true] at h
+          simp only [show ¬ ((-1 : Int) > 0) by decide, if_false, Nat.add_zero]
+          split at h
+          · simp at h
+          · rename_i p' hp'
+            simp only [Option.some.injEq] at h
+            subst h
+            first | exact ⟨rfl, hp'⟩ | exact ⟨trivial, hp'⟩ | exact hp'
+        · have hb : dropBias r d = 1 := by simp [dropBias, hdd, hbias]
+          rw [hb] at h ⊢
+          simp only [show ¬ ((1 : Int) = 0) by decide, if_false, show ¬ ((1 : Int) < 0) by decide] at h
+          simp only [show ((1 : Int) > 0) by decide, if_true]
+          split at h
+          · simp at h
+          · rename_i p' hp'
+            simp only [Option.some.injEq] at h
+            subst h
+            have hia : r.indexAfter d = r.index d + 1 := by
+              unfold RPos.indexAfter
+              rw [if_neg (by simp [hdd])]
+            exact ⟨hia.symm, hp'⟩
+    · exact dropLoop_hit S r content pass2 d p (by omega) h
+
+/-- `replace_step` on a non-empty request that does not fit trivially is the Fitter's answer -/
+theorem replaceStep_nontrivial (S : Schema) (doc : Node) (f t : Nat) (sl : Slice)
+    (hne : ¬ (f = t ∧ sl.size = 0)) (h : fitsTriviallyO S doc f t sl = some false) :
+    ∃ rf rt, doc.resolve f = some rf ∧ doc.resolve t = some rt ∧
+      replaceStep S doc f t sl = fitterFit S doc rf rt sl (fitFuel S sl) := by
+  unfold replaceStep
+  rw [if_neg (by simpa using hne)]
+  unfold fitsTriviallyO at h
+  split at h
+  · rename_i rf rt hrf hrt
+    exact ⟨rf, rt, hrf, hrt, by simp only [hrf, hrt, h]⟩
+  · simp at h
+
+/-- **an answer of the second pass of `drop_point` never fits trivially**: the first pass refused the content at every
+    depth, in particular at the depth and index of the answer -/
+theorem dropPass2_not_trivial (S : Schema) {ty0 : TypeId} {a0 : Attrs} {m0 : Marks} {K : List Node} {pos : Nat}
+    {r : RPos} (hf : (Node.elem ty0 a0 m0 K).resolve pos = some r) (hn : fnorm K = true) (C : List Node) (p : Nat)
+    (h1 : dropLoop S r C false (r.depth + 1) = some none)
+    (h2 : dropLoop S r C true (r.depth + 1) = some (some p)) :
+    fitsTriviallyO S (.elem ty0 a0 m0 K) p p ⟨C, 0, 0⟩ = some false := by
+  have R := resolve_resolved hf
+  obtain ⟨d, hd, _, hcase⟩ := dropLoop_hit S r C true (r.depth + 1) p (Nat.le_refl _) h2
+  have hmiss := dropLoop_miss S r C false (r.depth + 1) h1 d (by omega)
+  simp only [dropFits, Bool.not_false, if_true] at hmiss
+  rcases hcase with ⟨hde, hp⟩ | ⟨hlt, hat⟩
+  · subst hde
+    have hb : dropBias r r.depth = 0 := by simp [dropBias]
+    rw [hb] at hmiss
+    simp only [Int.lt_irrefl, if_false, Nat.add_zero] at hmiss
+    rw [hp, R.pos_eq]
+    simp only [fitsTriviallyO, hf, fitsTriviallyR, beq_self_eq_true, Bool.and_self, if_true]
+    exact hmiss
+  · rw [boundary_fitsTrivially S hf hn d _ _ p (.inl hlt) hat C]
+    exact hmiss
+
+/-! ### typing inside text: the inside-text guard follows from the approval -/
+
+/-- in a `TextStable` schema, if the parent takes a text node in front of a text child, it takes `text n text` in its place
+    for every text node `n` whose marks it allows -/
+theorem canReplace_text_between (S : Schema) (hts : TextStableP S) (tyP : TypeId) (pre post : List Node)
+    (s : List Nat) (m : Marks) (n : Node) (hnt : S.tyOf n = S.textTy)
+    (hvL : S.validContent tyP (pre ++ .text s m :: post) = true)
+    (hm : (S.nodeType tyP).allowsMarks n.marks = true)
+    (hcr : S.canReplaceWith tyP (pre ++ .text s m :: post) pre.length pre.length S.textTy [] = some true) :
+    S.canReplace tyP (pre ++ .text s m :: post) (pre.length + 1) (pre.length + 1) ([n] ++ [.text s m]) 0 2
+      = some true := by
+  have hall := allowsMarks_of_valid S _ _ hvL (.text s m) (by simp)
+  unfold Schema.canReplaceWith Schema.contentMatchAt at hcr
+  simp only [List.isEmpty_nil, Bool.not_true, Bool.false_and, Bool.false_eq_true, if_false] at hcr
+  have e1 : (pre ++ Node.text s m :: post).take pre.length = pre := by simp
+  have e2 : (pre ++ Node.text s m :: post).drop pre.length = .text s m :: post := by simp
+  have e3 : S.types (Node.text s m :: post) = S.textTy :: S.types post := by simp [Schema.types, Schema.tyOf, Node.tyOr]
+  rw [e1, e2, e3] at hcr
+  split at hcr
+  · simp at hcr
+  · rename_i q0 hq0
+    split at hcr
+    · simp at hcr
+    · rename_i q1 hq1
+      split at hcr
+      · simp at hcr
+      · rename_i q2 hq2
+        simp only [Option.some.injEq] at hcr
+        rw [Dfa.run_cons] at hq2
+        cases hq1' : (S.dfa tyP).matchType q1 S.textTy with
+        | none => simp [hq1'] at hq2
+        | some q1' =>
+          have hst := hts tyP q0 q1 q1' hq1 hq1'
+          subst hst
+          simp only [hq1', Option.bind_some] at hq2
+          unfold Schema.canReplace Schema.contentMatchAt
+          have t1 : S.types ((pre ++ Node.text s m :: post).take (pre.length + 1)) = S.types pre ++ [S.textTy] := by
+            rw [take_mid]; simp [Schema.types, Schema.tyOf, Node.tyOr]
+          have t2 : (pre ++ Node.text s m :: post).drop (pre.length + 1) = post := drop_mid _ _ _
+          have t3 : S.types ((([n] ++ [Node.text s m]).take 2).drop 0) = [S.textTy, S.textTy] := by
+            have : S.tyOf (Node.text s m) = S.textTy := rfl
+            simp [Schema.types, hnt, this]
+          rw [t1, t2, Dfa.run_append, hq0]
+          simp only [Option.bind_some, Dfa.run, hq1, t3, hq1', hq2]
+          simp only [hcr, Bool.true_and, List.take, List.drop, List.cons_append, List.nil_append, List.all_cons,
+            List.all_nil, Bool.and_true, Option.some.injEq, Bool.and_eq_true]
+          exact ⟨hm, hall⟩
 
 end PM
